@@ -107,7 +107,14 @@ def run_concurrent(ctx, nsessions):
                           "size": size if same_size else rng.randrange(0, 3000),
                           "delay": rng.choice([0, 0, 50, 300]),
                           "onward": rng.random() < 0.35})
-        reqs.append({"calls": calls, "rounds": 3})
+        rq = {"calls": calls, "rounds": 3}
+        if si % 4 == 3:
+            # FNatsServer with its default event handlers and ONE worker: later requests wait in its queue behind slow handlers
+            rq["server"] = "nats"
+            for c in calls:
+                c["delay"] = rng.choice([0, 2000, 5000])
+                c["onward"] = False
+        reqs.append(rq)
     rc, resps, err = hc.run_lines([os.path.join(vlib.BIN, "vh_ctx"), "concurrent"], reqs, timeout=900)
     ncalls = bad = 0
     if len(resps) != len(reqs):
@@ -136,15 +143,18 @@ def run_concurrent(ctx, nsessions):
                         {bytes.fromhex(k): bytes.fromhex(v) for k, v in want.items()})
                 elif any(seen.get(k) != v for k, v in c["req"]) or seen.get(b"_cid".hex()) != c["cid"]:
                     why = "the handler did not see the caller's request headers"
+                elif seen.get(b"_timeout".hex()) != b"3000".hex():
+                    why = "the handler's context carries the timeout %r, the caller placed 3000 ms" % bytes.fromhex(seen.get(b"_timeout".hex()) or "")
                 if why:
                     bad += 1
-                    ctx.violation("C09 (%d calls in flight over one adapter transport, round %d): %s" % (len(q["calls"]), rnd, why),
+                    ctx.violation("C09 (%d calls in flight over one %s, round %d): %s" % (
+                        len(q["calls"]), "NATS transport to a one-worker FNatsServer" if q.get("server") == "nats" else "adapter transport", rnd, why),
                                   {"request": q, "call": c, "observed": o})
     return {"sessions": len(reqs), "calls": ncalls, "failures": bad,
             "rule": "2..8 calls in flight at once through one FStandardClient over one adapter transport (loopback TCP, FSimpleServer, "
                     "FBaseProcessor), 3 rounds, own correlation id / request headers / handler response headers per call, equal-sized "
                     "replies in half of the sessions; a third of the handlers make an onward two-way call WITH the context they were given between "
-                    "their response headers (two hops: what the leaf sets and what the handler sets before and after must all reach the first caller); direct oracle only"}
+                    "their response headers; every fourth session runs over an FNatsServer with one worker and its default event handlers (requests queue behind slow handlers; the timeout the handler sees is the caller's) (two hops: what the leaf sets and what the handler sets before and after must all reach the first caller); direct oracle only"}
 
 
 def run(ctx, br):
